@@ -121,7 +121,8 @@ def check_cacg(run, A):
             ok_all = False
             continue
         def _has(z):
-            return any(p.op == 'param' and p.args[0] == 'eigenvalue_floor' for p in walk_terms(z))
+            # on every alternative of the floor value (it may be selected by covariance_norm before one shared np.maximum)
+            return all(any(p.op == 'param' and p.args[0] == 'eigenvalue_floor' for p in walk_terms(alt)) for alt in unwrap_gamma(z))
         if is_call_to(a, 'numpy.maximum') and _has(x) and not _has(fl):
             x, fl = fl, x           # maximum is commutative
         has_floor = _has(fl)
@@ -134,7 +135,7 @@ def check_cacg(run, A):
                                                             for y in (call_arg(d, 0), call_arg(d, 1))) and any(positive_floor(y) for y in (call_arg(d, 0), call_arg(d, 1)))
             run.check(okn, 'R-SAN', 'cACG: eigenvalues divided by their floored maximum over the eigenvalue axis', fn.loc(xs.node), '',
                       'max-normalisation is not eigenvals / maximum(amax(eigenvals, axis=-1, keepdims=True), tiny)', construct=f'R-SAN::{q}::max-normalisation')
-    run.check(ok_all and n_floor >= 2, 'R-SAN', 'cACG: stored eigenvalues are floored with eigenvalue_floor on every path', fn.loc(), '',
+    run.check(ok_all and n_floor >= 1, 'R-SAN', 'cACG: stored eigenvalues are floored with eigenvalue_floor on every path', fn.loc(), '',
               f'{n_floor} of {len(alts)} paths floor the eigenvalues with np.maximum(., eigenvalue_floor ...)', construct=f'R-SAN::{q}::floor')
     real = [e for e in g.events if e.term is not None and any(x.op == 'attr' and x.args[1] == 'real' for x in walk_terms(e.term))]
     run.check(bool(real), 'R-SAN', 'cACG: eigenvalues are made real', fn.loc(), '', '`.real` of the eigenvalues vanished', construct=f'R-SAN::{q}::real')
